@@ -241,10 +241,10 @@ func (m *Middleware) Delete(key any) {
 //
 //	err := m.Destroy()
 func (m *Middleware) Destroy() error {
+	err := m.Session.Destroy() // marks the middleware itself (under m.mu)
+
 	m.mu.Lock()
 	defer m.mu.Unlock()
-
-	err := m.Session.Destroy()
 	m.destroyed = true
 	return err
 }
